@@ -23,11 +23,15 @@ import (
 // small alphabet rich in quotes, backslashes, braces, slashes, stars, dollars, digits, newlines
 var c16Alpha = []string{"\"", "\"", "\\", "\\", "{", "}", "/", "/", "*", "$", "`", "0", "7", "9", "\n", "\n", " ", "\t",
 	"a", "l", "e", "t", "i", "f", "_", "Z", "|", ">", "<", "=", "-", "&", "%", "+", ".", ",", ":", ";", "(", ")", "[", "]",
-	"#", "'", "!", "\r", "\x00", "\xff", "\xc3"}
+	"#", "'", "!", "\r", "\x00", "\xff", "\xc3",
+	// U+FEFF (EF BB BF) whole and in pieces: escaped inside literals, the default panic(b) outside
+	"\xef\xbb\xbf", "\xef\xbb\xbf", "\xef\xbb\xbf", "\xef", "\xef\xbb", "\xbb\xbf"}
 
 var c16ScanHazards = []string{"//", "//x", "// x\n", "/*", "/**/", "/* */x", "/*/", "/* *", "1", "12", " 12", "12 ", "a", "a1_", "let", "let ", "_",
 	"$", "$\"", "$\"a\"", "$`a`", "$x", "\"", "\"a", "\"a\\", "\"a\\\"", "\"a\\\"\"", "`", "`a", "`a\\\"\n`", "{", "#", "|>", "||", "|", "<>", "<=", "<", ">=", ">", "&&", "&", "->", "-",
-	" \t /* c */ // d\n x", "\t", " ", "/", "/ ", "/\n", "a//", "a/*", "9//", "99999999999999999999 ", "package_info", "elif x", "\xff", "\x00"}
+	" \t /* c */ // d\n x", "\t", " ", "/", "/ ", "/\n", "a//", "a/*", "9//", "99999999999999999999 ", "package_info", "elif x", "\xff", "\x00",
+	"\xef\xbb\xbf", "\"\xef\xbb\xbf\"", "`\xef\xbb\xbf`", "\"a\xef\xbb\xbfb\xef\xbb\xbf\"", "\"\xef\xbb\"", "\"\xef\xbb", "\"\xef\xbb\xbf", "`\xef\xbb\xbf", "`\xef",
+	"$\"\xef\xbb\xbf{x}\"", "$`\xef\xbb\xbf`", "\"\\\xef\xbb\xbf\"", "x \xef\xbb\xbf", "// \xef\xbb\xbf\n\"\xef\xbb\xbf\"", "\"\xef\xef\xbb\xbf\xbf\""}
 
 var c16SInterpHazards = []string{"", "a", "{", "{a", "{a}", "a{b}c{d}e", "}", "{}", "{{}", "\\", "a\\", "\\{", "\\}", "\\{a\\}", "\\{{a}\\}", "%", "100%", "%{a}%", "\\n", "\\\\", "\\\\{a}", "{a\\}", "{a}{", "{a}{b", "{\\}", "\\%", "a{b}\\"}
 
